@@ -29,7 +29,8 @@ THEOREMS = ['C19_join_suffix_confined', 'C19_no_symlink_followed', 'C19_join_suf
             'C19_cache_file_confined', 'C19_rejects_escapes', 'C19_valid_ids_are_plain_names', 'C19_server_ids_valid',
             'C19_jobs_disjoint', 'C19_prepare_fresh', 'C19_prepare_guard', 'C19_started_job_root_fresh', 'C19_build_names_injective', 'C19_build_roots_not_nested',
             'C19_toolchain_readonly_by_construction', 'C19_job_view_independent_of_history',
-            'C19_docker_pool_only_additions', 'C19_docker_removes_added_only', 'C19_components_join']
+            'C19_docker_pool_only_additions', 'C19_docker_removes_added_only', 'C19_launcher_env_independent',
+            'C19_client_env_only_after_setenv', 'C19_no_overlay_no_job', 'C19_components_join']
 ASSUMPTIONS = [
     'PARTIAL: bubblewrap is not available in the sandbox; the job itself is replaced by a stand-in that is confined to '
     'its root by construction. What is covered is everything the SERVER does outside the sandbox: directory creation, '
@@ -89,6 +90,35 @@ def real_digest2():
         _real['id2'] = p.stdout.decode().strip().encode()
         assert valid_id(_real['id2']) and _real['id2'] != real_digest(), _real['id2']
     return _real['id2']
+
+
+def hook_caps():
+    """what the hook in this tree can do beyond its first legs (`__verif_paths caps`): launcher (records how the stand-in
+    bwrap was started; jobs may carry environment variables), overlayfail (server directories on an overlay), entries
+    (docker leg: entries with any bytes in their path)"""
+    if 'caps' not in _real:
+        try:
+            p = subprocess.run([pipeline.repo_bin('sccache-dist'), '__verif_paths', 'caps'], stdin=subprocess.DEVNULL,
+                               stdout=subprocess.PIPE, timeout=60)
+            _real['caps'] = set(p.stdout.decode().split()) & {'launcher', 'overlayfail', 'entries'}
+        except Exception:
+            _real['caps'] = set()
+    return _real['caps']
+
+
+ENV_NAMES = [b'LD_PRELOAD', b'LD_AUDIT', b'LD_LIBRARY_PATH', b'BASH_ENV', b'ENV', b'PATH', b'HOME', b'CC', b'LANG', b'SOURCE_DATE_EPOCH',
+             b'A=B', b'=', 'é'.encode(), b'X Y', b'TMPDIR', b'IFS']
+
+
+def gen_env(rng, jid):
+    """the client's environment: ordinary variables, and names that mean something to a process started on the host,
+    pointing at a file the job ships in its own inputs (by the host path the inputs are unpacked at)"""
+    env = []
+    for _ in range(rng.range(1, 4)):
+        k = rng.choice(ENV_NAMES)
+        v = rng.choice([b'gcc', b'C', b'', b'/tmp/build/builds/' + jid[:64] + b'-1/target/in_d/f', b'/in_d/f', b'a=b', b'x y'])
+        env.append([k, v])
+    return env
 
 
 def fs_supported():
@@ -326,6 +356,8 @@ def gen_fs_job(rng, real, pool, symlinks=False):
         if rng.chance(1, 3):
             cwd = rng.choice([b'/', b'']) + where + rng.choice([b'', b'/newdir', b'/../up'])
     if kind == 'real':
+        if 'launcher' in hook_caps() and rng.chance(1, 3):
+            return [b'job', real, 1, 1, cwd, outs, inputs, writes, gen_env(rng, real)]
         return [b'job', real, 1, 1, cwd, outs, inputs, writes]
     if kind == 'wronghex':
         return [b'job', bytes(rng.choice(HEX) for _ in range(64)), 0, 0, cwd, outs, inputs, writes]
@@ -403,6 +435,7 @@ def gen_fs2(rng, tier):
     out = []
     for _ in range(n):
         cap = rng.weighted([(1, 5), (0, 1), (2, 1)])
+        on_overlay = 'overlayfail' in hook_caps() and rng.chance(1, 6)
         ops = []
         live = []
         key = 0
@@ -425,6 +458,12 @@ def gen_fs2(rng, tier):
                 outs = [name] + ([b'b.o'] if rng.chance(1, 3) else [])
                 writes = [[b'file', o, b'J%d:' % nj + o] for o in outs if rng.chance(5, 6)]
                 job = [b'job', t[which], which, 1, cwd, outs, [], writes]
+                if on_overlay and rng.chance(1, 2):
+                    # what would end up in the shared toolchain if the job were run without its own layer
+                    job[6] = [[b'file', rng.choice([b'tc_bin/tool', b'in_d/f', b'tc_lib/evil.so']), b'IN%d' % nj]]
+                    job[5] = job[5] + [rng.choice([b'/tc_bin/tool', b'/in_d/f'])]
+                if 'launcher' in hook_caps() and rng.chance(1, 4):
+                    job.append(gen_env(rng, t[which]))
             if k == 'start':
                 key += 1
                 live.append(key)
@@ -433,7 +472,7 @@ def gen_fs2(rng, tier):
                 ops.append(job)
         for x in live:
             ops.append([b'release', x])
-        out.append([cap, ops])
+        out.append([cap, ops, 1] if on_overlay else [cap, ops])
     return out
 
 
@@ -527,14 +566,14 @@ TOOLS = (TOOL, b'TOOL2')
 def simple_job(job):
     """a job whose outputs python can predict without a model: absolute cwd of plain names, outputs and written files
     plain names in cwd, no inputs, nothing but file writes"""
-    _, jid, genuine, do_run, cwd, outs, inputs, writes = job
+    _, jid, genuine, do_run, cwd, outs, inputs, writes = job[:8]
     plain = lambda n: n and b'/' not in n and n not in (b'.', b'..') and b'\x00' not in n
     return (cwd.startswith(b'/') and all(plain(x) for x in cwd[1:].split(b'/')) and not cwd.startswith(b'/tc_') and not inputs
             and all(plain(o) for o in outs) and all(w[0] == b'file' and plain(w[1]) for w in writes))
 
 
 def own_outputs(job):
-    _, jid, genuine, do_run, cwd, outs, inputs, writes = job
+    _, jid, genuine, do_run, cwd, outs, inputs, writes = job[:8]
     last = {}
     for w in writes:
         last[w[1]] = w[2]
@@ -544,7 +583,7 @@ def own_outputs(job):
 def check_obs(k, job, f, vs, symlinks, live):
     """the property on one observation.  job = the request this observation belongs to (for a release: the request
     that was started); live = {key: target} of the jobs whose compile is still running AFTER this step"""
-    _, jid, genuine, do_run, cwd, outs, inputs, writes = job
+    _, jid, genuine, do_run, cwd, outs, inputs, writes = job[:8]
     for step in (b'assign', b'submit', b'run'):
         if f[step] == b'panic':
             vs.append('job %d: handle_%s panicked (id %r)' % (k, step.decode(), jid))
@@ -563,6 +602,13 @@ def check_obs(k, job, f, vs, symlinks, live):
         if not {b'upper', b'work', b'target'} <= top.get(nm, set()):
             vs.append('job %d: the root builds/%s of job %r, which is still running, was removed or damaged by another job (left: %r)'
                       % (k, nm.decode(), key, sorted(top.get(nm, set()))))
+    # the launcher runs on the host: nothing the client chose may be in ITS environment
+    launch = {x[0]: x[1:] for x in f.get(b'launcher', []) if isinstance(x, list) and x}
+    client = {(e[0], e[1]) for e in (job[8] if len(job) > 8 else [])}
+    for e in launch.get(b'envdiff', []):
+        if e[0] == b'set' and (e[1], e[2]) in client:
+            vs.append('job %d: the client\'s variable %s=%r is in the environment of the launcher process, which the server starts '
+                      'on the host as root (only `--setenv` arguments may carry it)' % (k, e[1].decode('latin-1'), e[2]))
     allowed = set(TOOLS) | {m[2] for m in inputs if m[0] == b'file'} | {w[2] for w in writes if w[0] == b'file'}
     for o in f[b'outputs']:
         if o[1] == SECRET:
@@ -630,7 +676,7 @@ def mon_ops(ops, out, symlinks):
         if not isinstance(obs, list) or not obs or obs[0] not in (b'job', b'start', b'release'):
             vs.append('step %d: unexpected observation %r' % (k, obs))
             continue
-        f = {x[0]: x[1] for x in obs[1:]}
+        f = {x[0]: (x[1:] if x[0] == b'launcher' else x[1]) for x in obs[1:]}
         f[b'head'] = obs[0]
         if op[0] == b'start':
             job = op[2]
@@ -695,7 +741,11 @@ def canon_fs(line):
 
 
 def compare_fs(m, i):
-    return canon_fs(m) == canon_fs(i)
+    cm, ci = canon_fs(m), canon_fs(i)
+    if isinstance(cm, list) and isinstance(ci, list) and not any(isinstance(o, list) and any(isinstance(f, list) and f[:1] == [b'launcher'] for f in o) for o in ci):
+        # a hook that does not record how the launcher was started (before C19-hook.diff of round 4)
+        cm = [[f for f in o if not (isinstance(f, list) and f[:1] == [b'launcher'])] if isinstance(o, list) else o for o in cm]
+    return cm == ci
 
 
 def stats_calc(case, out):
@@ -714,7 +764,7 @@ def stats_fs(case, out):
     ks = ['jobs=%d' % len(case)]
     try:
         for obs in out:
-            f = {x[0]: x[1] for x in obs[1:]}
+            f = {x[0]: (x[1:] if x[0] == b'launcher' else x[1]) for x in obs[1:]}
             ks.append('assign=' + f[b'assign'].decode())
             ks.append('submit=' + f[b'submit'].decode())
             ks.append('run=' + f[b'run'].decode())
@@ -729,7 +779,7 @@ def stats_fs2(case, out):
     running = 0
     try:
         for op, obs in zip(case[1], out):
-            f = {x[0]: x[1] for x in obs[1:]}
+            f = {x[0]: (x[1:] if x[0] == b'launcher' else x[1]) for x in obs[1:]}
             ks.append('%s.run=%s' % (obs[0].decode(), f[b'run'].decode()))
             if obs[0] == b'start' and f[b'run'] == b'running':
                 running += 1
@@ -749,12 +799,12 @@ def nontrivial_fs2(case, out):
 
 
 def shrink_fs2(case):
-    cap, ops = case
+    cap, ops, flags = case[0], case[1], case[2:]
     for i in range(len(ops)):
-        yield [cap, ops[:i] + ops[i + 1:]]
+        yield [cap, ops[:i] + ops[i + 1:]] + flags
     for i, op in enumerate(ops):
         if op[0] == b'start':
-            yield [cap, ops[:i] + [op[2]] + [o for o in ops[i + 1:] if o != [b'release', op[1]]]]
+            yield [cap, ops[:i] + [op[2]] + [o for o in ops[i + 1:] if o != [b'release', op[1]]]] + flags
 
 
 def nontrivial_calc(case, out):
@@ -764,7 +814,7 @@ def nontrivial_calc(case, out):
 
 def nontrivial_fs(case, out):
     try:
-        return any(dict((x[0], x[1]) for x in obs[1:])[b'run'] != b'skipped' for obs in out)
+        return any(dict((x[0], x[1]) for x in obs[1:] if len(x) > 1)[b'run'] != b'skipped' for obs in out)
     except Exception:
         return True
 
@@ -902,13 +952,17 @@ def gen_docker(rng, tier):
                     lines[f.rsplit(b'/', 1)[0]] = b'C'
         if rng.chance(1, 4):
             lines[b'/tmp'] = rng.weighted([(b'C', 5), (b'A', 1), (b'D', 1)])
+        if 'entries' in hook_caps() and rng.chance(1, 5):
+            # names `docker diff` prints raw: a path ending in white space (trimmed away when it ends the listing), a
+            # path holding a newline (split into fake lines): rm -rf of the mangled name removes nothing
+            lines[rng.choice([b'/zzz ', b'/zzz\t', b'/tmp/a ', b'/tmp/zz\n', b'/zz\nA /tmp/q', b'/zy\nC /tmp', b'/zzz \n', b'/zzzz  '])] = b'A'
         ls = [t + b' ' + p for p, t in sorted(lines.items())]
         if kind == 'odd':
             ls.insert(rng.below(len(ls) + 1), rng.choice([b'A', b'X /p', b'A  /two', b'C', b'A /p q r', b'AA /x', b'a /x']))
             if rng.chance(1, 2):
                 ls = rng.shuffle(ls)
             ls = [l for l in ls if l]
-            if ls and (ls[0][:1].isspace() or ls[-1][-1:].isspace()):
+            if ls and (ls[0][:1].isspace() or ls[-1][-1:].isspace()) and 'entries' not in hook_caps():
                 continue
         out.append(ls)
     return out
@@ -986,7 +1040,37 @@ def _clean_container_text():
     return body, hashlib.sha256(body.encode()).hexdigest()
 
 
+PERFORM_BUILD_SHA = 'f9330da44565944311e4d21b6b0725de8cc83d4c7034a9fc9f27ed37237d9a2b'
+
+
+def _fn_text(header):
+    import hashlib
+    import re
+    src = open(os.path.join(pipeline.REPO, 'src/bin/sccache-dist/build.rs'), encoding='utf-8').read()
+    i = src.index(header)
+    depth = 0
+    j = src.index('{', src.index(')', i))
+    k = j
+    for k in range(j, len(src)):
+        if src[k] == '{':
+            depth += 1
+        elif src[k] == '}':
+            depth -= 1
+            if depth == 0:
+                break
+    body = re.sub(r'//[^\n]*', '', src[i:k + 1])
+    body = re.sub(r'\s+', ' ', body).strip()
+    return hashlib.sha256(body.encode()).hexdigest()
+
+
 def translate(rep):
+    caps = hook_caps()
+    if not {'launcher', 'overlayfail'} <= caps:
+        h = _fn_text('fn perform_build(')
+        rep.oblige('transcription:OverlayBuilder::perform_build', h == PERFORM_BUILD_SHA,
+                   'the hook in this tree cannot yet record how the launcher is started nor put the server on an overlay, so '
+                   'the model of perform_build (mount or refuse; client variables as --setenv arguments) is tied to the source '
+                   'text only; sha256 of the comment- and space-normalised function: %s (model transcribed from %s)' % (h, PERFORM_BUILD_SHA))
     body, h = _clean_container_text()
     if docker_supported():
         rep.notes.append('clean_container: compared with the model by running it (leg docker)')
@@ -1032,4 +1116,11 @@ def legs(tier):
                  'number of archives: start (the compile stays running), job, release; uploads evict the other toolchain, the '
                  'builder forgets and re-unpacks toolchains, counters restart; non-trivial = some step ran while another job\'s '
                  'compile was running'),
+        # witnesses that need the round-4 hook (launcher record, server on an overlay): compared and monitored only when
+        # the hook in the tree has these capabilities
+        Leg('fs2o', lambda rng, tier: [], monitor=lambda c, o: mon_fs2(c, o) if {'launcher', 'overlayfail'} <= hook_caps() else [],
+            compare=lambda m, i: compare_fs(m, i) if {'launcher', 'overlayfail'} <= hook_caps() else True,
+            stats=stats_fs2, impl_env=env, model_leg='fs2', impl_args=['fs2'],
+            rule='corpus only: a server whose directories lie on an overlay (every job must be refused, the unpacked toolchain '
+                 'stays as it is); jobs with client environment variables naming files of their own inputs'),
     ]
